@@ -1,92 +1,167 @@
 (* Yee_perm_pml.v — C08 with absorbing layers: the CPML loop and the full forward step of model/Yee.v commute with the cyclic
-   relabelling of the axes (layers are relabelled with the scene: axis a -> (a+1) mod 3, slice extents permuted). *)
-From Coq Require Import List Arith Lia.
-From FV Require Import base.Scalar base.Cplx model.Yee proofs.Yee_steps proofs.Yee_perm proofs.Yee_pml_sweep.
+   relabelling of the axes (layers are relabelled with the scene: axis a -> (a+1) mod 3, slice extents permuted).
+   Statements are pointwise (cell by cell), because the layer-membership test of the relabelled layer is the same boolean
+   conjunction in a different order. *)
+From Coq Require Import List Arith Bool Lia.
+From FV Require Import base.Scalar base.Cplx model.Yee proofs.Yee_steps proofs.Yee_perm proofs.Yee_pml_loop proofs.Yee_pml_sweep.
 Import ListNotations.
 
 Section PermPml.
   Variable K : Fld.
-  Notation P := (@P). Notation PV := (PV K). Notation PM := (PM K).
+  Notation PV := (PV K). Notation PM := (PM K).
+  Notation eqA := (eqA K). Notation eqV := (eqV K). Notation eqP := (eqP K).
   Definition Paxis (a : nat) : nat := match a with O => 1 | S O => 2 | _ => 0 end.
   Definition Ppml (p : pml K) : pml K :=
     mkPml K (Paxis (p_axis K p)) (p_min K p) (p_z0 K p) (p_z1 K p) (p_x0 K p) (p_x1 K p) (p_y0 K p) (p_y1 K p)
       (p_aE K p) (p_bE K p) (p_ikE K p) (p_aH K p) (p_bH K p) (p_ikH K p) (p_kappa1 K p).
   Definition PP (q : psi_t K) : psi_t K := (P (fst q), P (snd q)).
-  Definition PD (d : A3 K * A3 K) : A3 K * A3 K := (P (fst d), P (snd d)).
   Definition axis_ok (p : pml K) : Prop := (p_axis K p < 3)%nat.
 
-  (* the relabelled scene, layers included *)
   Definition Pscene_pml (sc : scene K) : scene K :=
     mkScene K (nz K sc) (nx K sc) (ny K sc) (hiz K sc) (hix K sc) (hiy K sc) (loz K sc) (lox K sc) (loy K sc)
       (wz K sc) (wx K sc) (wy K sc) (rf K sc) (PM (ieps K sc)) (PM (imu K sc)) (PM (sigE K sc)) (PM (sigH K sc))
       (eta0 K sc) (cn K sc) (PM (mE K sc)) (PM (mH K sc)) (map Ppml (pmls K sc)) (fun t => PV (injE K sc t)) (fun t => PV (injH K sc t)).
 
-  Lemma pml_apply_perm isE sim p d1 d2 psi : axis_ok p ->
-    pml_apply K isE sim (Ppml p) (P d1) (P d2) (PP psi) =
-    (PD (fst (pml_apply K isE sim p d1 d2 psi)), PP (snd (pml_apply K isE sim p d1 d2 psi))).
+  Lemma in_pml_perm p i j k : in_pml K (Ppml p) i j k = in_pml K p j k i.
   Proof.
-    intros Hax. unfold axis_ok in Hax. destruct p as [ax mn x0 x1 y0 y1 z0 z1 aE bE ikE aH bH ikH k1]. cbn in Hax.
-    destruct ax as [|[|[|ax]]]; [reflexivity | reflexivity | reflexivity | lia].
+    unfold in_pml, Ppml; cbn [p_x0 p_x1 p_y0 p_y1 p_z0 p_z1].
+    generalize (p_z0 K p <=? i), (i <? p_z1 K p), (p_x0 K p <=? j), (j <? p_x1 K p), (p_y0 K p <=? k), (k <? p_y1 K p).
+    intros [] [] [] [] [] []; reflexivity.
   Qed.
-  Lemma add_corr_perm ax c k1 k2 : (ax < 3)%nat -> add_corr K (Paxis ax) (PV c) (P k1) (P k2) = PV (add_corr K ax c k1 k2).
-  Proof. intros H. destruct ax as [|[|[|ax]]]; [reflexivity | reflexivity | reflexivity | lia]. Qed.
+  Lemma depth_perm p i j k : axis_ok p -> pml_depth K (Ppml p) i j k = pml_depth K p j k i.
+  Proof. unfold axis_ok, pml_depth, Ppml; cbn. destruct (p_axis K p) as [|[|[|a]]]; intros H; try reflexivity; lia. Qed.
+
+  Lemma pml_apply_perm isE sim p d1 d2 d1' d2' psi psi' : axis_ok p ->
+    eqA d1' (P d1) -> eqA d2' (P d2) -> eqP psi' (PP psi) ->
+    let r := pml_apply K isE sim p d1 d2 psi in let r' := pml_apply K isE sim (Ppml p) d1' d2' psi' in
+    eqA (fst (fst r')) (P (fst (fst r))) /\ eqA (snd (fst r')) (P (snd (fst r))) /\ eqP (snd r') (PP (snd r)).
+  Proof.
+    intros Hax H1 H2 [P1 P2]. cbv zeta. unfold pml_apply. cbn [fst snd].
+    repeat split; intros i j k; unfold P, PP; cbn [fst snd];
+      rewrite in_pml_perm, (depth_perm p i j k Hax), ?(H1 i j k), ?(H2 i j k), ?(P1 i j k), ?(P2 i j k); reflexivity.
+  Qed.
+  Lemma add_corr_perm ax c c' k1 k2 k1' k2' : (ax < 3)%nat -> eqV c' (PV c) -> eqA k1' (P k1) -> eqA k2' (P k2) ->
+    eqV (add_corr K (Paxis ax) c' k1' k2') (PV (add_corr K ax c k1 k2)).
+  Proof.
+    intros H (X & Y & Z) A B. destruct ax as [|[|[|ax]]]; try lia; unfold add_corr, Paxis, Yee_pml_loop.eqV, Yee_perm.PV; cbn [vx vy vz];
+      repeat split; intros i j k; unfold P; rewrite ?(X i j k), ?(Y i j k), ?(Z i j k), ?(A i j k), ?(B i j k); reflexivity.
+  Qed.
 
   Lemma pml_loop_perm isE sim (dsel dsel' : nat -> A3 K * A3 K) :
-    (forall a, (a < 3)%nat -> dsel' (Paxis a) = PD (dsel a)) ->
-    forall ps psis c, Forall axis_ok ps ->
-    pml_loop K isE sim (map Ppml ps) (map PP psis) dsel' (PV c) =
-    (PV (fst (pml_loop K isE sim ps psis dsel c)), map PP (snd (pml_loop K isE sim ps psis dsel c))).
+    (forall a, (a < 3)%nat -> eqA (fst (dsel' (Paxis a))) (P (fst (dsel a))) /\ eqA (snd (dsel' (Paxis a))) (P (snd (dsel a)))) ->
+    forall ps psis psis' c c', Forall axis_ok ps -> Forall2 (fun q q' => eqP q' (PP q)) psis psis' -> eqV c' (PV c) ->
+    eqV (fst (pml_loop K isE sim (map Ppml ps) psis' dsel' c')) (PV (fst (pml_loop K isE sim ps psis dsel c))) /\
+    Forall2 (fun q q' => eqP q' (PP q)) (snd (pml_loop K isE sim ps psis dsel c)) (snd (pml_loop K isE sim (map Ppml ps) psis' dsel' c')).
   Proof.
-    intros Hd. induction ps as [|p ps IH]; intros psis c HF.
-    - cbn. reflexivity.
-    - destruct psis as [|psi psis]; [cbn; reflexivity|].
-      inversion HF as [|? ? Hp HF']; subst. cbn [map pml_loop].
-      assert (E: p_axis K (Ppml p) = Paxis (p_axis K p)) by reflexivity. rewrite E, (Hd (p_axis K p) Hp).
-      destruct (dsel (p_axis K p)) as [d1 d2]. unfold PD at 1. cbn [fst snd].
-      rewrite (pml_apply_perm isE sim p d1 d2 psi Hp).
-      destruct (pml_apply K isE sim p d1 d2 psi) as [[k1 k2] psi']. cbn [fst snd PD].
-      rewrite (add_corr_perm (p_axis K p) c k1 k2 Hp), (IH psis (add_corr K (p_axis K p) c k1 k2) HF').
-      destruct (pml_loop K isE sim ps psis dsel (add_corr K (p_axis K p) c k1 k2)) as [c' rest]. reflexivity.
+    intros Hd. induction ps as [|p ps IH]; intros psis psis' c c' HF HQ Hc.
+    - cbn. split; assumption.
+    - inversion HF as [|? ? Hp HF']; subst.
+      destruct HQ as [|psi psi' psis0 psis0' Hq HQ']; [cbn; split; [assumption | constructor]|].
+      cbn [map pml_loop].
+      assert (E: p_axis K (Ppml p) = Paxis (p_axis K p)) by reflexivity. rewrite E.
+      destruct (Hd (p_axis K p) Hp) as [D1 D2].
+      destruct (dsel (p_axis K p)) as [d1 d2]. destruct (dsel' (Paxis (p_axis K p))) as [d1' d2']. cbn [fst snd] in D1, D2.
+      pose proof (pml_apply_perm isE sim p d1 d2 d1' d2' psi psi' Hp D1 D2 Hq) as (A1 & A2 & A3).
+      destruct (pml_apply K isE sim p d1 d2 psi) as [[k1 k2] q]. destruct (pml_apply K isE sim (Ppml p) d1' d2' psi') as [[k1' k2'] q'].
+      cbn [fst snd] in A1, A2, A3.
+      destruct (IH psis0 psis0' _ _ HF' HQ' (add_corr_perm (p_axis K p) c c' k1 k2 k1' k2' Hp Hc A1 A2)) as [R1 R2].
+      destruct (pml_loop K isE sim ps psis0 dsel (add_corr K (p_axis K p) c k1 k2)) as [r rest].
+      destruct (pml_loop K isE sim (map Ppml ps) psis0' dsel' (add_corr K (Paxis (p_axis K p)) c' k1' k2')) as [r' rest']. cbn [fst snd] in *.
+      split; [exact R1 | constructor; assumption].
   Qed.
 
   Variable sc : scene K.
   Hypothesis Hax : Forall axis_ok (pmls K sc).
+  Definition rel_psis (qs qs' : list (psi_t K)) : Prop := Forall2 (fun q q' => eqP q' (PP q)) qs qs'.
 
-  Lemma curlH_perm sim H psis :
-    curlH K (Pscene_pml sc) sim (PV H) (map PP psis) = (PV (fst (curlH K sc sim H psis)), map PP (snd (curlH K sc sim H psis))).
+  (* difference operators of the relabelled scene on pointwise-relabelled fields *)
+  Lemma nxt_ptw n hi (f g : nat -> C K) i : (forall q, f q = g q) -> nxt K n hi f i = nxt K n hi g i.
+  Proof. intros H. unfold nxt. rewrite !H. reflexivity. Qed.
+  Lemma prv_ptw n lo (f g : nat -> C K) i : (forall q, f q = g q) -> prv K n lo f i = prv K n lo g i.
+  Proof. intros H. unfold prv. destruct i; rewrite ?H; reflexivity. Qed.
+
+  Lemma dm_perm (u u' : A3 K) : eqA u' (P u) ->
+    eqA (dmx K (Pscene_pml sc) u') (P (dmz K sc u)) /\ eqA (dmy K (Pscene_pml sc) u') (P (dmx K sc u)) /\ eqA (dmz K (Pscene_pml sc) u') (P (dmy K sc u)).
   Proof.
-    unfold curlH at 1. cbn [pmls Pscene_pml].
-    rewrite (pml_loop_perm false sim
-      (fun a => match a with O => (dmx K sc (vz H), dmx K sc (vy H)) | S O => (dmy K sc (vx H), dmy K sc (vz H)) | _ => (dmz K sc (vy H), dmz K sc (vx H)) end)
-      _ ltac:(intros [|[|[|a]]] Ha; [reflexivity | reflexivity | reflexivity | lia]) (pmls K sc) psis (curlH_raw K sc H) Hax).
-    reflexivity.
+    intros H. repeat split; intros i j k; unfold dmx, dmy, dmz, P; cbn [nx ny nz lox loy loz wx wy wz rf Pscene_pml]; rewrite (H i j k); unfold P.
+    - rewrite (prv_ptw _ _ (fun a => u' a j k) (fun a => u j k a)) by (intros q; apply H). reflexivity.
+    - rewrite (prv_ptw _ _ (fun a => u' i a k) (fun a => u a k i)) by (intros q; apply H). reflexivity.
+    - rewrite (prv_ptw _ _ (fun a => u' i j a) (fun a => u j a i)) by (intros q; apply H). reflexivity.
   Qed.
-  Lemma curlE_perm sim E psis :
-    curlE K (Pscene_pml sc) sim (PV E) (map PP psis) = (PV (fst (curlE K sc sim E psis)), map PP (snd (curlE K sc sim E psis))).
+  Lemma dp_perm (u u' : A3 K) : eqA u' (P u) ->
+    eqA (dpx K (Pscene_pml sc) u') (P (dpz K sc u)) /\ eqA (dpy K (Pscene_pml sc) u') (P (dpx K sc u)) /\ eqA (dpz K (Pscene_pml sc) u') (P (dpy K sc u)).
   Proof.
-    unfold curlE at 1. cbn [pmls Pscene_pml].
-    rewrite (pml_loop_perm true sim
-      (fun a => match a with O => (dpx K sc (vz E), dpx K sc (vy E)) | S O => (dpy K sc (vx E), dpy K sc (vz E)) | _ => (dpz K sc (vy E), dpz K sc (vx E)) end)
-      _ ltac:(intros [|[|[|a]]] Ha; [reflexivity | reflexivity | reflexivity | lia]) (pmls K sc) psis (curlE_raw K sc E) Hax).
-    reflexivity.
+    intros H. repeat split; intros i j k; unfold dpx, dpy, dpz, P; cbn [nx ny nz hix hiy hiz wx wy wz rf Pscene_pml]; rewrite (H i j k); unfold P.
+    - rewrite (nxt_ptw _ _ (fun a => u' a j k) (fun a => u j k a)) by (intros q; apply H). reflexivity.
+    - rewrite (nxt_ptw _ _ (fun a => u' i a k) (fun a => u a k i)) by (intros q; apply H). reflexivity.
+    - rewrite (nxt_ptw _ _ (fun a => u' i j a) (fun a => u j a i)) by (intros q; apply H). reflexivity.
   Qed.
 
-  Definition Pstate_pml (s : state K) : state K := mkSt (tstep s) (PV (fE s)) (PV (fH s)) (map PP (psiE s)) (map PP (psiH s)).
-
-  (* one full step, CPML included: an equality of states *)
-  Theorem forward_perm_pml s : forward K (Pscene_pml sc) (Pstate_pml s) = Pstate_pml (forward K sc s).
+  Lemma curlH_raw_perm H H' : eqV H' (PV H) -> eqV (curlH_raw K (Pscene_pml sc) H') (PV (curlH_raw K sc H)).
   Proof.
-    unfold forward. rewrite !update_H_unfold, !update_E_unfold. cbn [fE fH psiE psiH tstep Pstate_pml].
-    rewrite curlH_perm. cbn [fst snd].
-    match goal with |- context [curlE K (Pscene_pml sc) true ?e (map PP (psiH s))] =>
-      change e with (PV (vmask K (mE K sc) (vadd K (mkV (updE1 K sc (m1 (ieps K sc)) (fE1 K sc (m1 (ieps K sc)) (m1 (sigE K sc))) (vx (fE s)) (vx (fst (curlH K sc true (fH s) (psiE s)))))
-                                                        (updE1 K sc (m2 (ieps K sc)) (fE1 K sc (m2 (ieps K sc)) (m2 (sigE K sc))) (vy (fE s)) (vy (fst (curlH K sc true (fH s) (psiE s)))))
-                                                        (updE1 K sc (m3 (ieps K sc)) (fE1 K sc (m3 (ieps K sc)) (m3 (sigE K sc))) (vz (fE s)) (vz (fst (curlH K sc true (fH s) (psiE s))))))
-                                                   (injE K sc (tstep s))))) end.
-    rewrite curlE_perm. cbn [fst snd]. reflexivity.
+    intros (X & Y & Z). cbn [vx vy vz Yee_perm.PV] in X, Y, Z.
+    destruct (dm_perm _ _ X) as (x1 & x2 & x3). destruct (dm_perm _ _ Y) as (y1 & y2 & y3). destruct (dm_perm _ _ Z) as (z1 & z2 & z3).
+    unfold curlH_raw, Yee_pml_loop.eqV, Yee_perm.PV; cbn [vx vy vz].
+    repeat split; intros i j k; unfold P; rewrite ?(z2 i j k), ?(y3 i j k), ?(x3 i j k), ?(z1 i j k), ?(y1 i j k), ?(x2 i j k); reflexivity.
+  Qed.
+  Lemma curlE_raw_perm E E' : eqV E' (PV E) -> eqV (curlE_raw K (Pscene_pml sc) E') (PV (curlE_raw K sc E)).
+  Proof.
+    intros (X & Y & Z). cbn [vx vy vz Yee_perm.PV] in X, Y, Z.
+    destruct (dp_perm _ _ X) as (x1 & x2 & x3). destruct (dp_perm _ _ Y) as (y1 & y2 & y3). destruct (dp_perm _ _ Z) as (z1 & z2 & z3).
+    unfold curlE_raw, Yee_pml_loop.eqV, Yee_perm.PV; cbn [vx vy vz].
+    repeat split; intros i j k; unfold P; rewrite ?(z2 i j k), ?(y3 i j k), ?(x3 i j k), ?(z1 i j k), ?(y1 i j k), ?(x2 i j k); reflexivity.
+  Qed.
+
+  Lemma curlH_perm sim H H' qs qs' : eqV H' (PV H) -> rel_psis qs qs' ->
+    eqV (fst (curlH K (Pscene_pml sc) sim H' qs')) (PV (fst (curlH K sc sim H qs))) /\
+    rel_psis (snd (curlH K sc sim H qs)) (snd (curlH K (Pscene_pml sc) sim H' qs')).
+  Proof.
+    intros HH HQ. pose proof HH as (X & Y & Z). cbn [vx vy vz Yee_perm.PV] in X, Y, Z.
+    destruct (dm_perm _ _ X) as (x1 & x2 & x3). destruct (dm_perm _ _ Y) as (y1 & y2 & y3). destruct (dm_perm _ _ Z) as (z1 & z2 & z3).
+    unfold curlH. cbn [pmls Pscene_pml].
+    apply pml_loop_perm; [| exact Hax | exact HQ | apply curlH_raw_perm; exact HH].
+    intros [|[|[|a]]] Ha; try lia; cbv beta iota; cbn [fst snd Paxis]; split; assumption.
+  Qed.
+  Lemma curlE_perm sim E E' qs qs' : eqV E' (PV E) -> rel_psis qs qs' ->
+    eqV (fst (curlE K (Pscene_pml sc) sim E' qs')) (PV (fst (curlE K sc sim E qs))) /\
+    rel_psis (snd (curlE K sc sim E qs)) (snd (curlE K (Pscene_pml sc) sim E' qs')).
+  Proof.
+    intros HH HQ. pose proof HH as (X & Y & Z). cbn [vx vy vz Yee_perm.PV] in X, Y, Z.
+    destruct (dp_perm _ _ X) as (x1 & x2 & x3). destruct (dp_perm _ _ Y) as (y1 & y2 & y3). destruct (dp_perm _ _ Z) as (z1 & z2 & z3).
+    unfold curlE. cbn [pmls Pscene_pml].
+    apply pml_loop_perm; [| exact Hax | exact HQ | apply curlE_raw_perm; exact HH].
+    intros [|[|[|a]]] Ha; try lia; cbv beta iota; cbn [fst snd Paxis]; split; assumption.
+  Qed.
+
+  (* states related by the relabelling *)
+  Definition rel_state (s s' : state K) : Prop :=
+    tstep s' = tstep s /\ eqV (fE s') (PV (fE s)) /\ eqV (fH s') (PV (fH s)) /\ rel_psis (psiE s) (psiE s') /\ rel_psis (psiH s) (psiH s').
+
+  (* C08 with absorbing layers: one step preserves the relation, hence any number of steps *)
+  Theorem forward_perm_pml s s' : rel_state s s' -> rel_state (forward K sc s) (forward K (Pscene_pml sc) s').
+  Proof.
+    intros (HT & HE & HH & PE & PH).
+    destruct (curlH_perm true (fH s) (fH s') (psiE s) (psiE s') HH PE) as (KC & PE').
+    assert (EE: eqV (fE (forward K (Pscene_pml sc) s')) (PV (fE (forward K sc s)))).
+    { rewrite !fE_forward, !update_E_unfold. cbn [fE].
+      destruct KC as (k1 & k2 & k3). destruct HE as (e1 & e2 & e3). cbn [vx vy vz Yee_perm.PV] in k1, k2, k3, e1, e2, e3.
+      unfold Yee_pml_loop.eqV, Yee_perm.PV, vmask, vadd, vmap2, updE1, fE1; cbn [vx vy vz m1 m2 m3 injE cn ieps sigE mE eta0 Pscene_pml Yee_perm.PM Yee_perm.PV].
+      rewrite HT. repeat split; intros i j k; unfold P; rewrite ?(e1 i j k), ?(e2 i j k), ?(e3 i j k), ?(k1 i j k), ?(k2 i j k), ?(k3 i j k); reflexivity. }
+    destruct (curlE_perm true (fE (forward K sc s)) (fE (forward K (Pscene_pml sc) s')) (psiH s) (psiH s') EE PH) as (KE & PH').
+    assert (A: forall scx st, psiH (update_E K scx true st) = psiH st /\ tstep (update_E K scx true st) = tstep st /\ fH (update_E K scx true st) = fH st /\
+                              psiE (update_E K scx true st) = snd (curlH K scx true (fH st) (psiE st)))
+      by (intros; rewrite update_E_unfold; repeat split).
+    destruct (A sc s) as (a1 & b1 & c1 & d1). destruct (A (Pscene_pml sc) s') as (a2 & b2 & c2 & d2).
+    split; [cbn; rewrite HT; reflexivity|]. split; [exact EE|]. split; [|split].
+    - unfold forward. rewrite !update_H_unfold. cbn [fH]. rewrite a1, a2, b1, b2, c1, c2, <- !fE_forward.
+      destruct KE as (k1 & k2 & k3). destruct HH as (h1 & h2 & h3). cbn [vx vy vz Yee_perm.PV] in k1, k2, k3, h1, h2, h3.
+      unfold Yee_pml_loop.eqV, Yee_perm.PV, vmask, vadd, vmap2, updH1, fH1; cbn [vx vy vz m1 m2 m3 injH cn imu sigH mH eta0 Pscene_pml Yee_perm.PM Yee_perm.PV].
+      rewrite HT. repeat split; intros i j k; unfold P; rewrite ?(h1 i j k), ?(h2 i j k), ?(h3 i j k), ?(k1 i j k), ?(k2 i j k), ?(k3 i j k); reflexivity.
+    - unfold forward. rewrite !update_H_unfold. cbn [psiE]. rewrite d1, d2. exact PE'.
+    - unfold forward. rewrite !update_H_unfold. cbn [psiH]. rewrite a1, a2, <- !fE_forward. exact PH'.
   Qed.
 
   Fixpoint iterQ (s0 : scene K) (n : nat) (st : state K) : state K := match n with O => st | S m => iterQ s0 m (forward K s0 st) end.
-  Theorem forward_perm_pml_n n : forall s, iterQ (Pscene_pml sc) n (Pstate_pml s) = Pstate_pml (iterQ sc n s).
-  Proof. induction n as [|n IH]; intros s; [reflexivity|]. cbn [iterQ]. rewrite forward_perm_pml. apply IH. Qed.
+  Theorem forward_perm_pml_n n : forall s s', rel_state s s' -> rel_state (iterQ sc n s) (iterQ (Pscene_pml sc) n s').
+  Proof. induction n as [|n IH]; intros s s' R; [exact R|]. cbn [iterQ]. apply IH. apply forward_perm_pml. exact R. Qed.
 End PermPml.
